@@ -179,6 +179,23 @@ def run_case(case):
                                 return dict(status="violation", kind="roundtrip",
                                             detail=f"n={n} mb={mb} d={d} trail={trail} dtype={np.dtype(dt).name}: unbatch changed dtype/rows "
                                                    f"({outi.dtype}, {outi.shape})")
+                # ---- the maximum batch size handed over as a NumPy integer (signed or unsigned) instead of a Python int
+                for ty in (np.int64, np.uint8 if mb <= 255 else np.uint16, np.uint64):
+                    try:
+                        bq = BatchProcessor(n_states=n, state_dim=2, max_batch_size=ty(mb), pmap_device_count=d)
+                        fig = (int(bq.n_devices), int(bq.n_batches), int(bq.batch_size), int(bq.n_pad))
+                        src = (np.arange(D * B * bs, dtype=np.float64) + 1.0).reshape((D, B, bs))
+                        outq = np.asarray(bq.unbatch_results(jnp.asarray(src)))
+                        prq = np.asarray(bq.prepare_batches(jnp.asarray(states)))
+                    except contracts.ContractBroken as e:
+                        return dict(status="violation", kind="contract", detail=str(e) + f" (max_batch_size={ty.__name__}({mb}))")
+                    except Exception as e:  # noqa: BLE001
+                        return dict(status="violation", kind="target-exception",
+                                    detail=f"n={n} d={d} max_batch_size={ty.__name__}({mb}): {type(e).__name__}: {str(e)[:150]}")
+                    if fig != (D, B, bs, pad) or outq.shape != (n,) or not np.array_equal(outq, src.reshape(-1)[:n]) or not np.array_equal(prq, prep):
+                        return dict(status="violation", kind="roundtrip",
+                                    detail=f"n={n} d={d}: max_batch_size={ty.__name__}({mb}) gives (devices, batches, batch_size, padding) = {fig} "
+                                           f"and {outq.shape[0]} un-batched rows; the Python int {mb} gives {(D, B, bs, pad)} and {n} rows")
                 n_layout += 1
     n_inv = contracts.COUNTS.get("BatchProcessor.invariant", 0) - ev0
     if n_inv == 0:
